@@ -80,6 +80,43 @@ fn item_sequences(g: &mut Gen, st: &mut Stats) -> CaseResult {
     // signalling-NaN halves are excluded by the property text (the half crate quiets them)
     let items: Vec<Item> = (0 .. n).map(|_| quiet(&item(g, &cfg))).collect();
     debug_assert!(!items.iter().any(has_snan_half));
+    sequence_oracle(g, st, preferred, items)
+}
+
+/// Text of about `n` bytes whose characters have widths 1-4 in a pseudo-random mix (expanded from one tape word), so that
+/// multi-byte characters straddle every power-of-two offset sooner or later; `ascii_runs` adds long pure-ASCII stretches.
+pub fn long_text(seed: u64, n: usize, ascii_runs: bool) -> String {
+    let mut x = seed | 1;
+    let mut next = move || { x ^= x << 13; x ^= x >> 7; x ^= x << 17; x };
+    let mut s = String::with_capacity(n + 4);
+    while s.len() < n {
+        let r = next();
+        if ascii_runs && r % 64 == 0 { let k = 1 + (next() % 70_000) as usize; for i in 0 .. k.min(n - s.len()) { s.push((b'a' + (i % 26) as u8) as char) } continue }
+        s.push(match r % 4 { 0 => (b' ' + (r >> 8) as u8 % 95) as char, 1 => char::from_u32(0x80 + (r >> 8) as u32 % 0x780).unwrap(), 2 => char::from_u32(0x800 + (r >> 8) as u32 % 0x5000).unwrap(), _ => char::from_u32(0x1_0000 + (r >> 8) as u32 % 0x10_0000).unwrap() });
+    }
+    s
+}
+
+/// Items with payloads of 64 KiB and more (definite and chunked text and byte strings), alone and between other items.
+fn long_payloads(g: &mut Gen, st: &mut Stats) -> CaseResult {
+    use vcore::item::W;
+    st.eval();
+    let n = match g.below(6) { 0 => (1usize << 16) + g.below(9), 1 => (1 << 16) - g.below(9), 2 => (1 << 17) + g.below(64) - 32, 3 => 3 * (1 << 16) + g.below(16), _ => 60_000 + g.below(120_000) };
+    let seed = g.u64();
+    let kind = g.below(5);
+    let text = long_text(seed, n, g.bool());
+    let big = match kind {
+        0 | 1 => Item::Text(text.clone(), W::min_for(text.len() as u64)),
+        2 => { let cut = { let mut c = g.below(text.len()); while !text.is_char_boundary(c) { c -= 1 } c }; Item::TextIndef(vec![(text[.. cut].to_string(), W::min_for(cut as u64)), (text[cut ..].to_string(), W::min_for((text.len() - cut) as u64))]) }
+        3 => Item::Bytes(text.as_bytes().to_vec(), W::min_for(text.len() as u64)),
+        _ => Item::BytesIndef(vec![(text.as_bytes()[.. n / 2].to_vec(), W::min_for((n / 2) as u64)), (text.as_bytes()[n / 2 ..].to_vec(), W::min_for((text.len() - n / 2) as u64))])
+    };
+    let items = match g.below(4) { 0 => vec![big], 1 => vec![Item::uint(7), big, Item::text("after")], 2 => vec![Item::array(vec![big, Item::Null])], _ => vec![Item::Map(vec![(Item::uint(1), big)], None), Item::True] };
+    st.class(["long/definite text", "long/definite text", "long/chunked text", "long/definite bytes", "long/chunked bytes"][kind]);
+    sequence_oracle(g, st, true, items)
+}
+
+fn sequence_oracle(g: &mut Gen, st: &mut Stats, preferred: bool, items: Vec<Item>) -> CaseResult {
     let mut input = Vec::new();
     for i in &items { i.encode_into(&mut input) }
     let mut d = Decoder::new(&input);
@@ -261,6 +298,8 @@ pub fn subs() -> Vec<Sub> {
     vec![
         Sub { prop: "C11", name: "item-sequences", rule: "1-6 well-formed items (preferred heads incl. indefinite containers, or arbitrary framings): token list == flattened head list of the model; Encoder::tokens(tokens) == preferred-head form of the same sequence; distinct by input",
               kind: Kind::Random { quick: 500_000, thorough: 5_000_000, tape: 1024, f: item_sequences } },
+        Sub { prop: "C11", name: "long-payloads", rule: "text and byte strings of 60-200 KB (lengths around 2^16, 2^17, 3*2^16 and uniform; characters of 1-4 bytes in a pseudo-random mix, optionally with long ASCII runs; definite and chunked), alone, between other items and inside containers: the same oracle as item-sequences",
+              kind: Kind::Random { quick: 1_500, thorough: 20_000, tape: 64, f: long_payloads } },
         Sub { prop: "C11", name: "all-halves", rule: "every half pattern except signalling NaNs: token value and identity re-encoding",
               kind: Kind::Enumerate { quick: 1 << 16, thorough: 1 << 16, f: all_halves, complete_quick: true, complete_thorough: true } },
         Sub { prop: "C11", name: "all-simple", rule: "every encodable simple value",
